@@ -1,53 +1,27 @@
 import NsyncVerif.Props.C06Fair
 import NsyncVerif.Proofs.MuCFairSteps6
 import NsyncVerif.Proofs.MuCFairSpin5
-import NsyncVerif.Proofs.MuCFairDead3
+import NsyncVerif.Proofs.MuCFairDead
 /-!
 # C06 / C02 liveness on a mutex with conditional critical sections — towards `C06_fair_finite_steps_full`
 
 Continues `Props/C06Fair.lean` (which reduces `C06_fair_termination_full` to `C06_fair_finite_steps_full`: "only finitely
 many steps of the library happen").  Model `NsyncVerif.Model.MuC`.  Steps as in the header of `Props/C02Fair.lean`.
 
-## STATUS: `C06_fair_termination_full` IS FALSE — REFUTED by a reachable DEADLOCK of the mutex (DEFECT F9, GENUINE: reproduced on the real library)
+## STATUS after the repair of DEFECT F9 (this file follows the REPAIRED mu_wait.c)
 
-`C06_fair_termination_full_refuted`, `C06_fair_finite_steps_full_refuted`, `C06_fair_quiescence_or_sleepers_full_refuted`,
-`C06_long_wait_progress_full_refuted`; witness `C06_fair_deadlock_witness`: the accepted execution `traceDead`
-(Proofs/MuCTraceDead.lean, 899 model events, every event the acceptor's own unique successor for the scheduled thread;
-`dead_accepts` by `decide`) ends in the state `deadA`:
-
-    word = 116 = MU_WAITING | MU_CONDITION | MU_WRITER_WAITING | MU_LONG_WAIT — no lock bit, spinlock free, no MU_DESIG_WAKER;
-    mu->waiters = [w0]: thread 0, inside nsync_mu_lock, asleep (count 0), `long_wait` set (woken 30 times in vain);
-    thread 4, inside nsync_mu_wait_with_deadline with the FINITE deadline 5 (clock 10), timed out, woken by the last
-    unlocker, spinning in mu_try_acquire_after_timeout_or_cancel — which waits for MU_LONG_WAIT to clear;
-    threads 1, 2, 3 idle, nobody holds the mutex.
-
-Only thread 0 clears MU_LONG_WAIT (when it acquires); only a wake-up lets it try; the only thread that owes one (the
-designated waker: thread 4) waits for the bit.  Every newcomer (lock, rlock: MU_LONG_WAIT is in their zero_to_acquire)
-queues and sleeps; try-locks fail; a second timed-out waiter spins too.  THE MUTEX IS DEAD.  Continued by thread 4's spinning
-(`deadExec`, a lasso) the execution is weakly fair and satisfies EVERY hypothesis of the theorem (`dead_hyps : FairHyps
-deadExec`: holders release, 37 arrivals, no failing `remove_count` CAS, no environment post, no note, contract kept, clock
-advanced past the deadline), the proviso holds for thread 4 (finite deadline) and for thread 0 (a plain nsync_mu_lock) —
-and neither ever returns.
-
-HOW (scenario, 5 threads; see the header of Proofs/MuCTraceDead.lean): MU_DESIG_WAKER is cleared by the acquire CAS of ANY
-woken thread.  A reader X woken long ago (left over from a batch of readers) acquires while the long waiter L is "in flight"
-after its 30th wake-up: the bit that protected L is gone.  X's nsync_mu_runlock therefore takes the slow path, and — because
-a conditional waiter T is queued — tests conditions with the spinlock RELEASED and the writer bit held.  In that window L
-makes its 30th failed attempt and queues itself with MU_LONG_WAIT: on mu->waiters, i.e. BEHIND T's record, which is on X's
-private list.  T (a reader whose condition has become true, and whose timed P has meanwhile expired: it is spinning in
-mu_try_acquire_after_timeout_or_cancel) is woken; L, a writer after a woken reader, is passed over.  X returns.
-Ingredients in the code: mu.c lock_slow `& ~clear` (clear = MU_DESIG_WAKER for every woken thread); mu.c:353-354, 399-410
-(release around condition_true, new arrivals appended after the scanned ones); mu.c:382-385 (writer passed over after a
-reader); mu_wait.c:72 `(old_word & (MU_WZERO_TO_ACQUIRE|MU_SPINLOCK)) != 0` with MU_LONG_WAIT in MU_WZERO_TO_ACQUIRE.
-CONFIRMED ON THE REAL LIBRARY: the scenario and schedule in the header of Proofs/MuCTraceDead.lean, run on the unmodified
-/repo sources under the harness, end in exactly this state (mu0.word = 116, fiber 4 re-loading it for ever at
-mu_wait.c/3/mu_try_acquire_after_timeout_or_cancel, fiber 0 in `sem p_enter`) and the harness's own oracle reports
-`lock-missed: fiber 0 is asleep inside nsync_mu_lock / nsync_mu_rlock although mu0 is free and no thread can move`.
-A possible repair: mu_try_acquire_after_timeout_or_cancel should not wait for MU_LONG_WAIT (it is a waiter that has
-waited: test `MU_ANY_LOCK|MU_SPINLOCK` only, as a woken waiter does with `zero_to_acquire &= ~(MU_WRITER_WAITING|MU_LONG_WAIT)`).
-
-The theorem survives for executions in which MU_LONG_WAIT is never set: `C06_fair_termination_nolw_full` (stated below, NOT
-proved; everything proved in Props/C06Fair.lean and here applies to it, the reductions are per execution).
+DEFECT F9 (genuine, found by this proof attempt, reproduced on the real library — scenario and schedule in the header of
+Proofs/MuCTraceDead.lean): mu_try_acquire_after_timeout_or_cancel waited for MU_LONG_WAIT even after the thread had been
+woken; a timed-out nsync_mu_wait caller that was woken (designated waker) while it spun, with the long waiter queued behind
+it, left the mutex dead.  For the OLD code `C06_fair_termination_full` was FALSE: `C06_fair_termination_old_code_witness`
+(the old acceptor `runOldF9`, Proofs/MuCFairDead.lean, accepts `traceDead`, which ends in the dead state — word 116 =
+MU_WAITING|MU_CONDITION|MU_WRITER_WAITING|MU_LONG_WAIT, nobody holding, thread 0 asleep inside nsync_mu_lock, thread 4 inside
+nsync_mu_wait_with_deadline (finite deadline) woken and spinning for ever); the repaired acceptor rejects the trace at the
+new load of `waiting` (`dead_new_rejects`).
+REPAIR (model: program point `mtLdWk`, local `MW.wk`): at the top of the loop body `if (ATM_LOAD_ACQ (&w->nw.waiting) == 0)
+zero_to_acquire = MU_ANY_LOCK;` — a woken thread no longer waits for MU_LONG_WAIT, like a woken thread in lock_slow.
+For the repaired code `C06_fair_termination_full` is OPEN again (neither proved nor refuted); `C06_long_wait_progress_full`
+below is the invariant a proof would need in place of the refuted one (a woken spinner now counts as making progress).
 
 ## Also proved here (all for ALL executions, any number of threads) — towards `C06_fair_termination_nolw_full`:
 
@@ -120,7 +94,7 @@ In the closed system (`ClosedFrom`), with no failing `remove_count` CAS and no e
    is idle, asleep, the spurious-wake-up loops (finitely many posts) — and a thread spinning in
    mu_try_acquire_after_timeout_or_cancel on MU_LONG_WAIT: point 3.  Mechanical (local ranks for ~60 program points, the
    `own_cases` tactic of Proofs/MuCFairStraight.lean proves each successor lemma in three lines).
-3. `C06_long_wait_progress_full` is FALSE (`C06_long_wait_progress_full_refuted`): hence the hypothesis `NoLongWait` in 2.
+3. `C06_long_wait_progress_full` (OPEN for the repaired code; false for the old one): without it, the hypothesis `NoLongWait` in 2.
 (1 ∧ 2 ⟹ `C06_fair_termination_nolw_full`: `C06_fair_termination_nolw_of_closed`, machine-checked glue.)
 
 (The earlier version of this header argued informally that the dead state is unreachable; the argument overlooked that
@@ -208,7 +182,12 @@ def C06_closed_word_settles_full : Prop :=
   ∀ (cfg : Cfg) (s0 : State) (x : Exec cfg s0), FairHyps x → ∀ n, ClosedFrom x n →
     ∃ N, ∀ j, N ≤ j → (x.ρ j).word = (x.ρ N).word
 
-/-- (3) REFUTED below (`C06_long_wait_progress_full_refuted`).  While MU_LONG_WAIT is set and the spinlock is free, somebody who does not
+/-- A thread spinning in mu_try_acquire_after_timeout_or_cancel that has NOT been seen woken (it still honours MU_LONG_WAIT). -/
+def PC.mtSpin : PC → Bool
+  | .mtLd c | .mtCasAcq c _ | .mtCasWW c _ | .mtLdWk c _ => !c.wk
+  | _ => false
+
+/-- (3) OPEN for the repaired code (it was false for the old code, where a woken spinner waited for the bit too).  While MU_LONG_WAIT is set and the spinlock is free, somebody who does not
     wait for the bit is responsible for the queued waiters: a thread that owns a share, an unlocker mid-scan or in its
     wake-up loop, or a thread in flight that is not spinning in mu_try_acquire_after_timeout_or_cancel. -/
 def C06_long_wait_progress_full : Prop :=
@@ -238,44 +217,24 @@ theorem C06_fair_termination_nolw_of_closed :
   obtain ⟨m, hs⟩ := settled_of_no_steps x hy hN
   exact fair_termination_of_settled x hy.reach hy.contract hy.note hs t i hm
 
-/-! ## THE REFUTATION (defect F9): a reachable dead mutex -/
+/-! ## DEFECT F9 of the old code -/
 
-set_option maxRecDepth 4096
-
-/-- The witness, in full: `deadExec` satisfies every hypothesis; thread 4 called nsync_mu_wait_with_deadline with the finite
-    deadline 5 at time 50 and has timed out (time 865, clock 10); thread 0 is inside nsync_mu_lock, asleep, queued, with
-    `long_wait` set; the word is 116 (MU_LONG_WAIT, no lock bit, spinlock free, no designated waker); the proviso
-    `MustReturn` holds for both — and neither ever returns. -/
-theorem C06_fair_deadlock_witness :
-    FairHyps deadExec ∧ Reachable ⟨false⟩ deadA ∧
-    deadExec.σ 50 = some (.call 4 (.wait (some { fn := .eq, k := 0, var := 0, val := 1, hasEq := false }) (some 5) false)) ∧
-    (∃ c, (deadExec.ρ 865).pc 4 = .mwLd244 c ∧ c.dl = some 5 ∧ c.so = .timedout) ∧
-    (∃ c, deadA.pc 0 = .lsPRet c ∧ c.mw = none ∧ c.lwl = true ∧ c.w = some 0) ∧
-    deadA.queue = [0] ∧ (deadA.wr 0).sem = 0 ∧ encode deadA.word = 116 ∧ deadA.word.lw = true ∧
-    deadA.word.wlock = false ∧ deadA.word.readers = 0 ∧ deadA.word.spin = false ∧ deadA.word.desig = false ∧
-    MustReturn deadExec 4 865 ∧ MustReturn deadExec 0 865 ∧
-    (∀ j, 865 ≤ j → (deadExec.ρ j).pc 4 ≠ .idle) ∧ (∀ j, 865 ≤ j → (deadExec.ρ j).pc 0 ≠ .idle) := by
-  obtain ⟨a, b, c, d, e, f, g, h, i, j, k⟩ := dead_calls
-  exact ⟨dead_hyps, dead_reachable, a, b, c, d, e, f, g, h, i, j, k, dead_must4, dead_must0, dead_never4, dead_never0⟩
-
-/-- `C06_fair_termination_full` is FALSE. -/
-theorem C06_fair_termination_full_refuted : ¬ C06_fair_termination_full := by
-  intro h
-  obtain ⟨j, hj, hidle⟩ := h _ _ deadExec dead_hyps 4 865 dead_must4
-  exact dead_never4 j hj hidle
-
-theorem C06_fair_finite_steps_full_refuted : ¬ C06_fair_finite_steps_full :=
-  fun h => C06_fair_termination_full_refuted (C06_fair_termination_of_finite_steps h)
-
-theorem C06_fair_quiescence_or_sleepers_full_refuted : ¬ C06_fair_quiescence_or_sleepers_full :=
-  fun h => C06_fair_termination_full_refuted (C06_fair_termination_of_settled h)
-
-/-- (3) is FALSE: in the reachable state `deadA` MU_LONG_WAIT is set, the spinlock is free, and nobody who does not wait
-    for the bit is responsible. -/
-theorem C06_long_wait_progress_full_refuted : ¬ C06_long_wait_progress_full := by
-  intro h
-  obtain ⟨t, ht⟩ := h ⟨false⟩ deadA dead_reachable dead_calls.2.2.2.2.2.2.1 dead_calls.2.2.2.2.2.2.2.2.2.1
-  exact dead_no_resp t ht
+/-- For mu_wait.c before the repair of F9 the theorem was false: the old acceptor accepts `traceDead` (an execution
+    reproduced on the real library), which ends with the mutex dead — MU_LONG_WAIT set, no lock bit, spinlock free, no
+    designated waker; thread 0 asleep inside nsync_mu_lock with `long_wait` set, queued; thread 4 inside
+    nsync_mu_wait_with_deadline with the finite deadline 5, timed out, woken, spinning — and the spinner's re-load of the
+    word leads back to the same program point; the repaired acceptor rejects the trace at the new load of `waiting`. -/
+theorem C06_fair_termination_old_code_witness :
+    afterOldF9 ⟨false⟩ traceDead (fun s =>
+      encode s.word == 116 && s.word.lw && !s.word.wlock && s.word.readers == 0 && !s.word.spin && !s.word.desig &&
+      s.queue == [0] && (s.wr 0).sem == 0 && !(s.wr 3).waiting &&
+      (match s.pc 0 with | .lsPRet c => c.lwl && decide (c.mw = none) | _ => false) &&
+      (match s.pc 4 with | .mtLd c => decide (c.dl = some 5) && decide (c.so = .timedout) | _ => false) &&
+      decide (s.pc 1 = .idle) && decide (s.pc 3 = .idle) && decide (s.held 1 = none) && decide (s.held 3 = none)) = true ∧
+    afterOldF9 ⟨false⟩ (traceDead ++ [.ld 4 .rlx .word 116, .ld 4 .rlx .word 116, .ld 4 .rlx .word 116])
+      (fun s => match s.pc 4 with | .mtLd _ => encode s.word == 116 | _ => false) = true ∧
+    acceptsF ⟨false⟩ traceDead = false :=
+  ⟨dead_old_accepts, dead_old_spins, dead_new_rejects.1⟩
 
 /-! ## the open point: non-vacuity -/
 
